@@ -58,8 +58,9 @@ def doctype(feats, secret, rng, root):
     """Internal DTD subset (and external id) for the feature set; returns (doctype text, entity reference to use or '')."""
     decls, ref = [], ""
     ext_id = ""
+    empty = rng.random() < 0.3      # a declaration is a declaration, whatever it declares: empty replacement text, empty system literal
     if "internal" in feats:
-        decls.append('<!ENTITY ival "expanded-internal-value">')
+        decls.append('<!ENTITY ival "">' if empty else '<!ENTITY ival "expanded-internal-value">')
         ref = "&ival;"
     if "nested" in feats:
         depth = rng.choice([2, 3, 5, 7, 8])
@@ -71,13 +72,16 @@ def doctype(feats, secret, rng, root):
             # used inside the DTD itself, as an attribute default: expanded (if at all) while the declarations are still being read
             decls.append(f'<!ATTLIST {root} boom CDATA "&l{depth};">')
     if "extfile" in feats:
-        decls.append(f'<!ENTITY xfile SYSTEM "file://{secret}">')
+        decls.append('<!ENTITY xfile SYSTEM "">' if empty else f'<!ENTITY xfile SYSTEM "file://{secret}">')
         ref = ref or "&xfile;"
     if "exthttp" in feats:
         decls.append('<!ENTITY xhttp SYSTEM "http://127.0.0.1:9/verif-xxe">')
         ref = ref or "&xhttp;"
     if "param" in feats:
-        decls.append(f'<!ENTITY % pe SYSTEM "file://{secret}.dtd">')
+        if empty:
+            decls.append('<!ENTITY % pe "">')
+        else:
+            decls.append(f'<!ENTITY % pe SYSTEM "file://{secret}.dtd">')
         decls.append("%pe;")
     if "elemdecl" in feats:
         decls.append(f"<!ELEMENT {root} ANY>")
@@ -127,8 +131,25 @@ def render(entry, feats, secret, rng, style):
     return doc, lambda r: r == ["d.hds"]
 
 
-def _handle(text, how):
-    """The document as a caller hands it over: a text stream, or a binary one (a file opened "rb", a tar member)."""
+_OPENED = []
+
+
+def _handle(text, how, work=None):
+    """The document as a caller hands it over: a text stream, or a binary one (a file opened "rb", a tar member), a real file opened
+    for reading as text, or a stream the caller has already looked at (sniffed the first line, read to the end)."""
+    if how in ("text-file", "text-file-sniffed"):
+        p = os.path.join(work, "handed-over.xml")
+        with open(p, "w", encoding="utf-8") as f:
+            f.write(text)
+        fh = open(p, "r", encoding="utf-8")   # noqa: SIM115
+        _OPENED.append(fh)
+        if how == "text-file-sniffed":
+            fh.readline()
+        return fh
+    if how in ("consumed", "sniffed"):
+        fh = io.StringIO(text)
+        fh.read() if how == "consumed" else fh.readline()
+        return fh
     if how == "binary":
         return io.BytesIO(text.encode("utf-8"))
     if how == "binary-buffered":
@@ -139,13 +160,13 @@ def _handle(text, how):
 def consume(entry, text, work, encoding, how="text", preopen=None, backup=None):
     if entry == "ovf":
         from dissect.hypervisor.descriptor.ovf import OVF
-        return list(OVF(_handle(text, how)).disks())
+        return list(OVF(_handle(text, how, work)).disks())
     if entry == "vbox":
         from dissect.hypervisor.descriptor.vbox import VBox
-        return list(VBox(_handle(text, how)).disks())
+        return list(VBox(_handle(text, how, work)).disks())
     if entry == "pvs":
         from dissect.hypervisor.descriptor.pvs import PVS
-        return list(PVS(_handle(text, how)).disks())
+        return list(PVS(_handle(text, how, work)).disks())
     from dissect.hypervisor.disk.hdd import Descriptor
     p = Path(work) / "DiskDescriptor.xml"
     if preopen is not None:
@@ -180,7 +201,8 @@ def rng_choice_path(work, p):
     return Path(work) if len(str(p)) % 2 else p
 
 
-STYLES = [{"in_attr": False}, {"in_attr": True}, {"in_attr": False, "pad": 3000}, {"in_attr": True, "pad": 70000}]
+STYLES = [{"in_attr": False}, {"in_attr": True}, {"in_attr": False, "pad": 3000}, {"in_attr": True, "pad": 70000},
+          {"in_attr": False, "how": "text-file"}, {"in_attr": True, "how": "text-file"}]     # a real file opened as text (it has an .encoding, a .name)
 # off-standard document shapes (still "any document" in the property's sense): for these only the refusal of entity
 # declarations and the absence of fetches / hangs is asserted - what a benign document of that shape parses to is not
 SHAPES = [{"shape": "charrefs"}, {"shape": "leading-blank-lines"}, {"shape": "declared-utf16"}, {"shape": "declared-latin1", "in_attr": True}, {"shape": "xinclude"}, {"shape": "xinclude-xml", "in_attr": True}, {"shape": "binary-handle", "how": "binary"}, {"shape": "binary-buffered-handle", "how": "binary-buffered", "in_attr": True},
@@ -192,7 +214,9 @@ SHAPES = [{"shape": "charrefs"}, {"shape": "leading-blank-lines"}, {"shape": "de
           # the words of an entity declaration in places where they are character data: a comment, a CDATA section, escaped text
           {"shape": "mentions-entity"}, {"shape": "mentions-entity-attr", "in_attr": True},
           # the Parallels disk directory opened as a whole, an entity-free backup descriptor next to the current one
-          {"shape": "dir-with-backup", "backup": True}, {"shape": "dir-with-backup-attr", "backup": True, "in_attr": True}]
+          {"shape": "dir-with-backup", "backup": True}, {"shape": "dir-with-backup-attr", "backup": True, "in_attr": True},
+          # a handle the caller has already read from (what is left parses or not - entities must not come through either way)
+          {"shape": "handle-consumed", "how": "consumed"}, {"shape": "handle-sniffed", "how": "sniffed", "in_attr": True}, {"shape": "file-sniffed", "how": "text-file-sniffed"}]
 
 
 # what an entity-free document of these shapes must parse to, per entry point
@@ -323,6 +347,8 @@ def run(ctx):
                         signal.alarm(0)
                         signal.signal(signal.SIGALRM, old)
                         disarm()
+                        while _OPENED:
+                            _OPENED.pop().close()
                     peak = max(0, tracemalloc.get_traced_memory()[1] - mem0)     # what this one call added at its worst
                     fetched = [e for e in EVENTS]
                     a = {"entry": st["entry"], "features": "+".join(sorted(feats))}
